@@ -240,10 +240,26 @@ def full_name(h):
     return "generated::proofs::" + h.name
 
 
+def gc_slot(target):
+    """cargo keeps one unit directory per distinct harness-filter set (and per state of /repo); drop
+    all but the newest few so that the worker slots do not fill the disk."""
+    root = os.path.join(target, "kani", "x86_64-unknown-linux-gnu", "debug", "build")
+    for pkg, keep in (("hmverif", 6), ("helgoboss-midi", 3)):
+        d = os.path.join(root, pkg)
+        try:
+            subs = [os.path.join(d, x) for x in os.listdir(d)]
+        except OSError:
+            continue
+        subs.sort(key=lambda x: os.path.getmtime(x), reverse=True)
+        for old in subs[keep:]:
+            shutil.rmtree(old, ignore_errors=True)
+
+
 def run_chunk(cfg, slot, chunk, logdir, playback=False, focus=None):
     """Run one `cargo kani` process over a chunk of harnesses; returns {name: parsed result}."""
     base, crate = prepare_crate(cfg, slot)
     target = os.path.join(base, "target")
+    gc_slot(target)
     cmd = ["cargo", "kani", "--target-dir", target] + KANI_FLAGS
     if playback:
         cmd += PLAYBACK_FLAGS
@@ -928,6 +944,7 @@ def check_property(prop, tier, seed, jobs, use_cache, only):
     log("== %s tier=%s seed=%d: %d harnesses, repo=%s" % (prop, tier, seed, len(hs), REPO))
     pre_notes = structural_eq_check(hs)
     logdir = os.path.join(BUILD, "logs", prop)
+    shutil.rmtree(logdir, ignore_errors=True)   # logs of the previous run of this check
     results = run_all(hs, jobs, use_cache, logdir)
     violations = []
     inconclusive = []
